@@ -618,6 +618,8 @@ func (e *MetaCDC) Create(req *request.CreateRequest) (resp *request.CreateRespon
 		deleteErr := e.delete(info.TaskID)
 		if deleteErr != nil {
 			log.Warn("fail to delete the task", zap.String("task_id", info.TaskID), zap.Error(deleteErr))
+			// the task record is still there, or somebody else has deleted it meanwhile: its book-keeping is not this request's to revert
+			excludeCollectionNames, newCollectionNames = nil, nil
 			return nil, servererror.NewServerError(deleteErr)
 		}
 		excludeCollectionNames, newCollectionNames = nil, nil // delete has already reverted the book-keeping
